@@ -326,6 +326,28 @@ class C04(core.Check):
         c['frags'] = self.gen_frags(rng, n, bufsize) if not big else rng.choice([[], [rng.randrange(1, 9000) for _ in range(20)]])
         return c
 
+    def gen_linesize_boundary(self, rng, quick):
+        """the last line of a part ends exactly at / around a multiple of the 64 KiB that read_lines_to_boundary
+        asks readline() for: the CRLF before the delimiter straddles the limit (k * 65536 - 1), sits just before
+        or just after it; with and without earlier lines; content ending in CR"""
+        lens = [65536 * k + d for k in ((1, 2) if quick else (1, 2, 3)) for d in (-2, -1, 0, 1)]
+        for n in lens:
+            for head in ((b'',) if quick else (b'', b'hello\r\n', b'x\n')):
+                for cr_end in (False, True):
+                    c = self.gen_case(rng, big=True)
+                    c['parts'] = c['parts'][:1]
+                    unit = bytes(rng.choice(b'abcdefgh -') for _ in range(53))
+                    line = (unit * (n // 53 + 1))[:n]
+                    if cr_end:
+                        line = line[:-1] + b'\r'
+                    c['parts'][0]['body'] = head + line
+                    c['parts'][0]['ct'] = rng.choice([None, 'application/octet-stream'])
+                    c['pre'] = b''
+                    m = len(build_body(c))
+                    c['frags'] = rng.choice([[], [rng.randrange(1, 9000) for _ in range(20)]])
+                    self.count('linesize-boundary')
+                    yield c
+
     LENIENT_SHAPES = [b'x\n%s\r\ny', b'x\n%s', b'\n%s\r\n', b'x\n%s--\r\nrest', b'abc\n%s \t\r\nmore', b'x\n%s\ny',
                       b'x\r\n\n%s\r\n']
 
@@ -437,6 +459,7 @@ class C04(core.Check):
         n_main = 3000 if quick else 40000
         out += [self.gen_case(rng) for _ in range(n_main)]
         out += [self.gen_case(rng, big=True) for _ in range(40 if quick else 300)]
+        out += list(self.gen_linesize_boundary(rng, quick))
         out += [self.gen_hdr(rng) for _ in range(300 if quick else 4000)]
         out += [self.gen_lenient(rng) for _ in range(60 if quick else 1000)]
         out += [self.gen_proc(rng) for _ in range(40 if quick else 500)]
